@@ -19,6 +19,11 @@ Clauses(e) ==
           <<"number-of-bins", e.raised \/ e.skip \/ e.len_ok>>,
           <<"class-equals-function", e.raised \/ e.skip \/ Small(e.class_dev, Tol)>>,
           <<"real-data-bins-are-the-first-half", e.raised \/ e.skip \/ Small(e.real_prefix_dev, Tol)>> }
+    ELSE IF e.ev = "bins" THEN
+        \* the definition at every bin: the worst bin error relative to the per-bin error model (1e-3 units)
+        { <<"no-exception", ~e.raised>>,
+          <<"number-of-bins", e.raised \/ e.len_ok>>,
+          <<"every-bin-equals-the-definition", e.raised \/ ~e.len_ok \/ e.bin_ratio <= 1000>> }
     ELSE IF e.ev = "wk" THEN
         { <<"no-exception", ~e.raised>>,
           <<"wiener-khinchin", e.raised \/ Small(e.wk_dev, Tol)>> }
